@@ -26,6 +26,7 @@ Step(e) ==
     [] e.act = "Edit"        -> Edit(e.d)
     [] e.act = "Render"      -> Render(e.force)
     [] e.act = "RenderPatch" -> RenderPatch
+    [] e.act = "Export"      -> Export(e.d, e.force)
 
 Post(e) ==
   /\ Chk("ConfigurationOnDisk", cfg' = e.cfg_id)
